@@ -832,6 +832,27 @@ fn gen_tl(r: &mut Rng, n: usize, out: &mut dyn Write) {
                 }
             }
         }
+        // C03 at the level of a built timeline (dyadic configurations): what `reverse` means.  F = the forward timeline
+        // of cycle d, R = the same keyframes reversing with cycle 2d.  At delay + d·x (x < 1) both are at position x on
+        // their first forward pass, so they show the same values; on R's way back, delay + 2d·(1 − x/2) is position x again.
+        if tl.exact && !tl.kfs.is_empty() && dur * 2.0 < 1e6 && r.chance(1, 2) {
+            let mut twin = tl.clone();
+            let (fslot, rslot, d) = if tl.rev_v() {
+                twin.dur = Some(dur * 0.5); twin.rev = Some(false); (5, 2, dur * 0.5)
+            } else {
+                twin.dur = Some(dur * 2.0); twin.rev = Some(true); (2, 5, dur)
+            };
+            writeln!(out, "{}", twin.line(5)).unwrap();
+            let target = vals_line(r, shape, tame);
+            let tgt = target.join(" ");
+            for x in [0.125f32, 0.25, 0.375, 0.5, 0.75, 0.875] {
+                writeln!(out, "upd {} {} {}", fslot, b(delay + d * x), tgt).unwrap();
+                writeln!(out, "upd {} {} {}", rslot, b(delay + d * x), tgt).unwrap();
+                writeln!(out, "# eq C03 1 2").unwrap();
+                writeln!(out, "upd {} {} {}", rslot, b(delay + 2.0 * d * (1.0 - x * 0.5)), tgt).unwrap();
+                writeln!(out, "# eq C03 1 3").unwrap();
+            }
+        }
         // C02 exact keyframe hits (dyadic configurations only; built-in/endpoint-fixing easings only)
         if tl.exact && !tl.kfs.is_empty() {
             let cycles = tl.cycles();
@@ -1054,6 +1075,10 @@ fn gen_anim(r: &mut Rng, n: usize, out: &mut dyn Write) {
         let s0 = r.below(nstates as u64) as usize;
         let v0 = vals_line(r, shape, true);
         writeln!(out, "anim 0 {} {} {} {} {}", shape, nstates, s0, v0.join(" "), toks.join(" ")).unwrap();
+        // C08 through the animator: a property no timeline animates keeps the value the caller gave it, whatever the history
+        let excluded: Vec<String> = shape_fields(shape).iter().enumerate().filter(|(_, f)| !f.1).map(|(k, _)| format!("{}={}", k, v0[k])).collect();
+        let c08 = if excluded.is_empty() { None } else { Some(format!("# expect C08 1 {}", excluded.join(" "))) };
+        if let Some(l) = &c08 { writeln!(out, "{}", l).unwrap(); }
         let steps = if r.chance(1, 6) { 60 } else { 4 + r.below(14) as usize };
         let mut cur = s0;
         let dts_exact = [0.0f32, 0.25, 0.5, 1.0, 0.125, 2.0, 8.0, 64.0];
@@ -1063,6 +1088,7 @@ fn gen_anim(r: &mut Rng, n: usize, out: &mut dyn Write) {
                 0..=5 => {
                     let dt = if exact { r.pick(&dts_exact) } else if r.chance(1, 4) { r.unit_f32() * 3.0 } else { r.pick(&dts_any) };
                     writeln!(out, "adv 0 {}", b(dt)).unwrap();
+                    if let Some(l) = &c08 { writeln!(out, "{}", l).unwrap(); }
                     if dt == 0.0 && c04_ok { writeln!(out, "# eqprev C06").unwrap(); }
                 }
                 6 => {
@@ -1070,18 +1096,20 @@ fn gen_anim(r: &mut Rng, n: usize, out: &mut dyn Write) {
                     if let Some(Some(tl)) = tls.get(cur) {
                         if let Some(c) = tl.cycles() {
                             let total = tl.delay_v() + tl.dur_v() * c as f32;
-                            if total < 1e6 { writeln!(out, "adv 0 {}", b(total)).unwrap(); }
+                            if total < 1e6 { writeln!(out, "adv 0 {}", b(total)).unwrap(); if let Some(l) = &c08 { writeln!(out, "{}", l).unwrap(); } }
                         }
                     }
                 }
                 7 => {
                     // same state: nothing at all changes
                     writeln!(out, "set 0 {}", cur).unwrap();
+                    if let Some(l) = &c08 { writeln!(out, "{}", l).unwrap(); }
                     writeln!(out, "# eqprev C04").unwrap();
                 }
                 _ => {
                     let s = r.below(nstates as u64) as usize;
                     writeln!(out, "set 0 {}", s).unwrap();
+                    if let Some(l) = &c08 { writeln!(out, "{}", l).unwrap(); }
                     // no jump: values before == values after (within the C04 hypotheses; checked by the oracle hook)
                     if c04_ok { writeln!(out, "# eqvprev C04").unwrap(); }
                     cur = s;
@@ -1098,9 +1126,13 @@ fn gen_anim(r: &mut Rng, n: usize, out: &mut dyn Write) {
             let u = resting[0];
             let others: Vec<usize> = animated[1..].to_vec();
             writeln!(out, "set 0 {}", a).unwrap();
+            if let Some(l) = &c08 { writeln!(out, "{}", l).unwrap(); }
             writeln!(out, "adv 0 {}", b(0.25)).unwrap();
+            if let Some(l) = &c08 { writeln!(out, "{}", l).unwrap(); }
             writeln!(out, "set 0 {}", u).unwrap();
+            if let Some(l) = &c08 { writeln!(out, "{}", l).unwrap(); }
             writeln!(out, "adv 0 {}", b(0.5)).unwrap();
+            if let Some(l) = &c08 { writeln!(out, "{}", l).unwrap(); }
             let n = r.pick(&[254usize, 255, 256, 257, 258, 511, 512, 513]);
             // with a single other animated state the run alternates other/A, which also enters an animated state each time
             let mut prev = u;
@@ -1109,14 +1141,18 @@ fn gen_anim(r: &mut Rng, n: usize, out: &mut dyn Write) {
                 if s == prev { s = a; }
                 if k + 1 == n && s == a { s = others[0]; }     // the run must not end in A itself
                 writeln!(out, "set 0 {}", s).unwrap();
+                if let Some(l) = &c08 { writeln!(out, "{}", l).unwrap(); }
                 if c04_ok { writeln!(out, "# eqvprev C04").unwrap(); }
-                if k % 16 == 7 { writeln!(out, "adv 0 {}", b(0.125)).unwrap(); }
+                if k % 16 == 7 { writeln!(out, "adv 0 {}", b(0.125)).unwrap(); if let Some(l) = &c08 { writeln!(out, "{}", l).unwrap(); } }
                 prev = s;
             }
             writeln!(out, "set 0 {}", a).unwrap();
+            if let Some(l) = &c08 { writeln!(out, "{}", l).unwrap(); }
             if c04_ok { writeln!(out, "# eqvprev C04").unwrap(); }
             writeln!(out, "adv 0 {}", b(0.25)).unwrap();
+            if let Some(l) = &c08 { writeln!(out, "{}", l).unwrap(); }
             writeln!(out, "adv 0 {}", b(1.0)).unwrap();
+            if let Some(l) = &c08 { writeln!(out, "{}", l).unwrap(); }
         }
     }
 }
